@@ -90,6 +90,7 @@ type conductor struct {
 	rhDeqN  int64
 	predone map[int]bool
 	unchecked map[int]map[string][]int
+	emptyResp map[int32]int // Kafka broker id -> answers to empty produce requests that are on their way
 	idx     int
 	forced  int
 	samples int
@@ -104,10 +105,15 @@ type conductor struct {
 }
 
 func newConductor(rec *vRec, c *simCluster, steps []condStep, idBase0 bool) *conductor {
-	cd := &conductor{rec: rec, c: c, steps: steps, wake: make(chan struct{}, 1), predone: map[int]bool{}, unchecked: map[int]map[string][]int{},
+	cd := &conductor{rec: rec, c: c, steps: steps, wake: make(chan struct{}, 1), predone: map[int]bool{}, unchecked: map[int]map[string][]int{}, emptyResp: map[int32]int{},
 		buf: make([]byte, 1<<20), debug: os.Getenv("VERIF_DEBUG_CONDUCT") != ""}
 	if !idBase0 {
 		cd.idBase = 1
+	}
+	c.onEmptyProduce = func(broker int32) {
+		cd.mu.Lock()
+		cd.emptyResp[cd.kafkaID(int(broker))]++
+		cd.mu.Unlock()
 	}
 	return cd
 }
@@ -168,11 +174,23 @@ func (cd *conductor) hook(point string, args ...interface{}) {
 		w.part = int(pt)
 		w.level, _ = args[2].(int)
 	case "bp.send":
-		w.broker, _ = args[0].(int32)
+		// the bridge goroutine is never parked: the simulated broker holds every request until the behaviour's verdict
+		// step anyway; a `bpsend` step waits for the request to be on the broker's table with the expected content
+		return
 	case "bp.resp":
 		w.broker, _ = args[0].(int32)
 		if len(args) > 1 && args[1] != nil {
 			w.hasErr = true
+		}
+		if !w.hasErr {
+			// the answer to an EMPTY produce request (forced epoch roll-over of an empty buffer; not in the model)
+			cd.mu.Lock()
+			if cd.emptyResp[w.broker] > 0 {
+				cd.emptyResp[w.broker]--
+				cd.mu.Unlock()
+				return
+			}
+			cd.mu.Unlock()
 		}
 	case "rb.start":
 		pt, _ := args[1].(int32)
@@ -246,8 +264,6 @@ func (cd *conductor) matches(s *condStep, w *condWaiter) bool {
 			w.broker == cd.kafkaID(s.Broker)
 	case "ppflush":
 		return w.point == "pp.flush" && w.part == s.Part && w.level == s.Level
-	case "bpsend":
-		return w.point == "bp.send" && w.broker == cd.kafkaID(s.Broker)
 	case "bpresp":
 		return w.point == "bp.resp" && w.broker == cd.kafkaID(s.Broker) && w.hasErr == s.Err
 	case "rbstart":
@@ -509,12 +525,6 @@ func (cd *conductor) run() {
 			cd.c.Release(s.Req)
 			cd.settle()
 		case "bpsend":
-			w := cd.await(s)
-			if w == nil {
-				why = fmt.Sprintf("step %d %s b%d req%d not reached; parked: %s", cd.idx, s.K, s.Broker, s.Req, cd.waiting())
-				break
-			}
-			close(w.ch)
 			// the request must be on the broker's table before anything else moves (requests are numbered by arrival);
 			// it may also wait on its connection behind a request the broker is still holding (checked when it is answered)
 			cd.settle()
